@@ -35,7 +35,7 @@ fn main() {
         "C20" => c20::run(seed, n, outdir, corpus),
         "C14" | "C15" | "C16" | "C18" => trn::run(prop, seed, n, outdir, corpus),
         "C05" | "C09" => img::run(prop, seed, n, outdir, corpus),
-        "TOK" | "C01" | "C02" | "C03" | "C04" | "C08" | "C12" | "C13" => tok::run(prop, seed, n, outdir, corpus),
+        "TOK" | "C01" | "C02" | "C03" | "C04" | "C08" | "C10" | "C12" | "C13" => tok::run(prop, seed, n, outdir, corpus),
         _ => {
             eprintln!("unknown property {}", prop);
             std::process::exit(2);
